@@ -116,8 +116,8 @@ def run(ck):
                    "crys.G is the space group (C18); crys.jumpnetwork is complete (C21)"]
     ck.theorems()
     rng = ck.rng
-    ncrys = ck.n(30, 160)
-    coq_budget_states = ck.n(60000, 600000)     # total number of states sent to the model
+    ncrys = ck.n(24, 160)
+    coq_budget_states = ck.n(40000, 600000)     # total number of states sent to the model
     max_case_states = ck.n(800, 1600)
     defs, runs, meta = [], [], []
     spent = 0
@@ -261,14 +261,7 @@ def run(ck):
     # ---- the model / verified checkers judge the implementation's output ---------------------------
     codes = []
     try:
-        chunk = 60
-        for a in range(0, len(runs), chunk):
-            body = "".join(defs) + "Eval vm_compute in [%s]." % ";\n ".join(runs[a:a + chunk])
-            out = ck.coq_cases("stars_%d" % a, body, sc.STARS_IMPORTS)
-            got = sc.parse_natlist(out)
-            if len(got) != len(runs[a:a + chunk]):
-                raise CoqFailure("could not parse model output: " + out[-300:])
-            codes += got
+        codes = sc.run_chunks(ck, "stars", "".join(defs), runs, sc.STARS_IMPORTS, chunk=60)
     except CoqFailure as e:
         ck.broken_proof = "correspondence Model/Stars.run_starset: %s" % e
     for (kind, info, meaning), c in zip(meta, codes):
